@@ -21,7 +21,8 @@ RULE = (
 ASSUMPTIONS = [
     "FuncADLIndexError is permitted only when the query text contains a constant index beyond the end of a tuple/list "
     "literal, or a variable index into a tuple/list literal (which beta-reduction may turn into such a constant); both are "
-    "planted by the generator and detected syntactically.",
+    "planted by the generator and detected syntactically (the literal written in place, bound to a parameter of a called lambda, or "
+    "First() of a Select whose lambda returns it).",
     "'Semantically intact' = whenever the original evaluates under CPython list semantics the result evaluates to the "
     "same value; unparse + compile of the result must always succeed.",
     "RecursionError on these bounded sizes counts as non-termination.",
@@ -42,31 +43,97 @@ def strategy(tier):
     return _case(3 if tier == "quick" else 4)
 
 
+def _reach(node, scope):
+    """the tuple / list / dict literals an expression may denote: written in place, bound to a parameter of a called lambda,
+    First() of a Select whose lambda returns one, either arm of a conditional"""
+    if isinstance(node, (ast.Tuple, ast.List, ast.Dict)):
+        return [node]
+    if isinstance(node, ast.Name):
+        return scope.get(node.id, [])
+    if isinstance(node, ast.IfExp):
+        return _reach(node.body, scope) + _reach(node.orelse, scope)
+    if isinstance(node, ast.Call):
+        f = node.func
+        if isinstance(f, ast.Lambda):
+            return _reach(f.body, _bind_called(f, node, scope))
+        first_arg = None
+        if isinstance(f, ast.Name) and f.id == "First" and len(node.args) == 1:
+            first_arg = node.args[0]
+        elif isinstance(f, ast.Attribute) and f.attr == "First" and not node.args:
+            first_arg = f.value
+        if first_arg is not None and isinstance(first_arg, ast.Call):
+            g = first_arg.func
+            lam = None
+            if isinstance(g, ast.Name) and g.id == "Select" and len(first_arg.args) == 2:
+                lam = first_arg.args[1]
+            elif isinstance(g, ast.Attribute) and g.attr == "Select" and len(first_arg.args) == 1:
+                lam = first_arg.args[0]
+            if isinstance(lam, ast.Lambda):
+                return _reach(lam.body, {**scope, **{a.arg: [] for a in lam.args.args}})
+    return []
+
+
+def _bind_called(lam, call, scope):
+    new = dict(scope)
+    params = list(lam.args.posonlyargs) + list(lam.args.args)
+    for a in params + list(lam.args.kwonlyargs):
+        new[a.arg] = []
+    for a, d in zip(params[len(params) - len(lam.args.defaults):], lam.args.defaults):
+        new[a.arg] = _reach(d, scope)
+    for a, d in zip(lam.args.kwonlyargs, lam.args.kw_defaults):
+        if d is not None:
+            new[a.arg] = _reach(d, scope)
+    for a, v in zip(params, call.args):
+        new[a.arg] = _reach(v, scope)
+    for kw in call.keywords:
+        if kw.arg is not None:
+            new[kw.arg] = _reach(kw.value, scope)
+    return new
+
+
 def _odd_selectors(tree):
     """(n_odd, planted_out_of_range)"""
     n_odd = 0
     planted = False
-    for n in ast.walk(tree):
-        if isinstance(n, ast.Subscript) and isinstance(n.value, (ast.Tuple, ast.List)) and not isinstance(n.slice, (ast.Constant, ast.Slice)) \
-                and not (isinstance(n.slice, ast.UnaryOp) and isinstance(n.slice.operand, ast.Constant)):
-            # a variable index may become an out-of-range constant after beta reduction
-            planted = True
-        if isinstance(n, ast.Subscript) and isinstance(n.value, (ast.Tuple, ast.List, ast.Dict)):
-            s = n.slice
-            if isinstance(n.value, ast.Dict):
-                keys = [k.value for k in n.value.keys if isinstance(k, ast.Constant)]
-                if not (isinstance(s, ast.Constant) and s.value in keys):
+
+    def visit(n, scope):
+        nonlocal n_odd, planted
+        if isinstance(n, ast.Subscript):
+            for base in _reach(n.value, scope):
+                s = n.slice
+                if isinstance(base, (ast.Tuple, ast.List)) and not isinstance(s, (ast.Constant, ast.Slice)) \
+                        and not (isinstance(s, ast.UnaryOp) and isinstance(s.operand, ast.Constant)):
+                    planted = True  # a variable index may become an out-of-range constant after beta reduction
+                if isinstance(base, ast.Dict):
+                    keys = [k.value for k in base.keys if isinstance(k, ast.Constant)]
+                    if not (isinstance(s, ast.Constant) and s.value in keys):
+                        n_odd += 1
+                elif isinstance(s, ast.Constant) and type(s.value) is int:
+                    if s.value >= len(base.elts):
+                        planted = True
+                        n_odd += 1
+                else:
                     n_odd += 1
-            elif isinstance(s, ast.Constant) and type(s.value) is int:
-                if s.value >= len(n.value.elts):
-                    planted = True
-                    n_odd += 1
-            else:
-                n_odd += 1
-        if isinstance(n, ast.Attribute) and isinstance(n.value, ast.Dict):
-            keys = [k.value for k in n.value.keys if isinstance(k, ast.Constant)]
-            if n.attr not in keys:
-                n_odd += 1
+        if isinstance(n, ast.Attribute):
+            for base in _reach(n.value, scope):
+                if isinstance(base, ast.Dict):
+                    keys = [k.value for k in base.keys if isinstance(k, ast.Constant)]
+                    if n.attr not in keys:
+                        n_odd += 1
+        if isinstance(n, ast.Call) and isinstance(n.func, ast.Lambda):
+            for c in list(n.args) + [k.value for k in n.keywords] + list(n.func.args.defaults) + [d for d in n.func.args.kw_defaults if d is not None]:
+                visit(c, scope)
+            visit(n.func.body, _bind_called(n.func, n, scope))
+            return
+        if isinstance(n, ast.Lambda):
+            for d in list(n.args.defaults) + [d for d in n.args.kw_defaults if d is not None]:
+                visit(d, scope)
+            visit(n.body, {**scope, **{a.arg: [] for a in list(n.args.posonlyargs) + list(n.args.args) + list(n.args.kwonlyargs)}})
+            return
+        for c in ast.iter_child_nodes(n):
+            visit(c, scope)
+
+    visit(tree, {})
     return n_odd, planted
 
 
